@@ -278,3 +278,108 @@ def fire_tables(names, horizon, max_dev, shapes=("step",), times=None):
             for n, tab in combo:
                 t[n] = tab
             yield t
+
+
+# ---------------------------------------------------------------------------------------
+# C13: interrupt fragment
+# ---------------------------------------------------------------------------------------
+
+C13_BODIES = [
+    [("take", "b1"), ("take", "b2"), ("take", "b3")],
+    [("do", "S2"), ("take", "b3")],
+    [("take", "b1"), ("do", "S2")],
+]
+
+C13_HANDLERS = [
+    [("take", "h")],
+    [("take", "h"), ("take", "h2")],
+    [("do", "S1")],
+    [("take", "h"), ("abort",)],
+    [("abort",)],
+    [("take", "h"), ("return",)],
+    [("return",)],
+]
+C13_LOOP_HANDLERS = [
+    [("take", "h"), ("break",)],
+    [("break",)],
+    [("take", "h"), ("continue",)],
+]
+
+
+def c13_programs(tier):
+    """Yield (index, prog).  Conditions: c1, c2 (interrupts), inv / pre / sinv (guards)."""
+    thorough = tier == "thorough"
+    idx = 0
+    subs = {"S1": SUBS["S1"], "S2": SUBS["S2"]}
+
+    def wrap(tryst, mode):
+        if mode == "plain":
+            return [tryst, ("take", "after")]
+        if mode == "for":
+            return [("loop", 2, [tryst, ("take", "inloop")]), ("take", "after")]
+        if mode == "while":
+            return [("loop", None, [tryst, ("take", "inloop")])]
+        raise ValueError(mode)
+
+    def emit(body, guards=None, via_sub=False, subinv=False):
+        nonlocal idx
+        behaviors = dict(subs)
+        if subinv:
+            behaviors["S2"] = dict(SUBS["S2"], inv=["sinv"])
+        if via_sub:
+            behaviors["W"] = {"body": body}
+            behaviors["B"] = dict(guards or {}, body=[("try", [("do", "W"), ("take", "b9")], [("c2", [("take", "o")])])])
+        else:
+            behaviors["B"] = dict(guards or {}, body=body)
+        prog = {"behaviors": behaviors, "monitors": {}, "agents": [("A1", "B")], "top": {}}
+        i = idx
+        idx += 1
+        return i, prog
+
+    handlers = C13_HANDLERS
+    for body in C13_BODIES:
+        # one handler
+        for h in handlers + C13_LOOP_HANDLERS:
+            modes = ("for", "while") if h in C13_LOOP_HANDLERS else (("plain", "for") if thorough else ("plain",))
+            for mode in modes:
+                yield emit(wrap(("try", body, [("c1", h)]), mode))
+        # two handlers on one statement
+        for h1 in handlers:
+            for h2 in handlers if thorough else handlers[:4]:
+                yield emit(wrap(("try", body, [("c1", h1), ("c2", h2)]), "plain"))
+        for h1 in C13_LOOP_HANDLERS:
+            for h2 in handlers[:2] + C13_LOOP_HANDLERS[:1]:
+                yield emit(wrap(("try", body, [("c1", h1), ("c2", h2)]), "for"))
+                yield emit(wrap(("try", body, [("c2", h2), ("c1", h1)]), "for"))
+        # nested statements: inner (c1) inside outer (c2)
+        for h1 in handlers:
+            for h2 in handlers if thorough else handlers[:4]:
+                inner = ("try", body, [("c1", h1)])
+                yield emit(wrap(("try", [inner, ("take", "mid")], [("c2", h2)]), "plain"))
+        for h1 in C13_LOOP_HANDLERS:
+            for h2 in handlers[:2] + C13_LOOP_HANDLERS[:2]:
+                inner = ("try", body, [("c1", h1)])
+                yield emit(wrap(("try", [inner, ("take", "mid")], [("c2", h2)]), "for"))
+                # handler of the outer statement containing a nested try
+                yield emit(wrap(("try", body, [("c2", [("try", [("take", "n1"), ("take", "n2")], [("c1", h1)]), ("take", "n3")])]), "for"))
+    # try inside a sub-behaviour which is itself run under an outer try
+    for body in C13_BODIES[:2]:
+        for h in handlers[:5]:
+            yield emit([("try", body, [("c1", h)]), ("take", "w9")], via_sub=True)
+    # guards
+    for body in C13_BODIES:
+        for h in handlers[:4]:
+            for guards in ({"inv": ["inv"]}, {"pre": ["pre"], "inv": ["inv"]}):
+                yield emit(wrap(("try", body, [("c1", h)]), "plain"), guards=guards, subinv=True)
+    for st in [("dofor", "S2", 2, "steps"), ("dountil", "S2", "c1"), ("do", "S2"), ("waitfor", 2, "steps"), ("waituntil", "c1")]:
+        yield emit([("take", "g0"), st, ("take", "g1"), ("take", "g2")], guards={"pre": ["pre"], "inv": ["inv"]}, subinv=True)
+
+
+def all_tables(names, steps):
+    """Every truth table of the named conditions over steps 0..steps-1 (false afterwards)."""
+    n = len(names) * steps
+    for bits in itertools.product((False, True), repeat=n):
+        t = {}
+        for i, name in enumerate(names):
+            t[name] = list(bits[i * steps : (i + 1) * steps]) + [False]
+        yield t
